@@ -1590,19 +1590,18 @@ var _ = reflect.TypeOf
 
 func (c12) Shrink(sc *Scenario) []*Scenario {
 	var out []*Scenario
-	// drop ops (end first), then keys from the end (only if unused)
-	for i := len(sc.Ops) - 1; i >= 0; i-- {
-		c := sc.Clone()
-		c.Ops = append(c.Ops[:i], c.Ops[i+1:]...)
-		out = append(out, c)
-		if len(out) > 60 {
-			break
+	// drop chunks of ops (halves, quarters, … single ops; later chunks first): a
+	// ddmin-style schedule that stays cheap for histories of 10^4 operations
+	n := len(sc.Ops)
+	for size := n / 2; size >= 1 && len(out) < 90; size /= 2 {
+		for end := n; end-size >= 0 && len(out) < 90; end -= size {
+			c := sc.Clone()
+			c.Ops = append(c.Ops[:end-size:end-size], sc.Ops[end:]...)
+			out = append(out, c)
+			if size == 1 && n-end >= 40 {
+				break
+			}
 		}
-	}
-	if len(sc.Ops) > 30 {
-		c := sc.Clone()
-		c.Ops = c.Ops[:len(c.Ops)/2]
-		out = append([]*Scenario{c}, out...)
 	}
 	if sc.HashFn != 0 {
 		c := sc.Clone()
@@ -1617,10 +1616,12 @@ func (c12) Shrink(sc *Scenario) []*Scenario {
 			used[a] = true
 		}
 	}
-	for j := len(sc.Keys) - 1; j >= 0; j-- {
+	keyCands := 0
+	for j := len(sc.Keys) - 1; j >= 0 && keyCands < 40 && len(sc.Ops) <= 400; j-- {
 		if used[int64(j)] || len(sc.Keys) <= 1 {
 			continue
 		}
+		keyCands++
 		c := sc.Clone()
 		c.Keys = append(c.Keys[:j], c.Keys[j+1:]...)
 		for i := range c.Ops {
@@ -1636,6 +1637,9 @@ func (c12) Shrink(sc *Scenario) []*Scenario {
 		out = append(out, c)
 	}
 	for i := range sc.Ops {
+		if len(sc.Ops) > 200 {
+			break // only worth trying once the history is short
+		}
 		if len(sc.Ops[i].Args) > 0 {
 			c := sc.Clone()
 			c.Ops[i].Args = c.Ops[i].Args[:len(c.Ops[i].Args)-1]
